@@ -64,6 +64,15 @@ def run(ctx, log):
              "-a * b", "-a + b", "!a == b", "- - a", "!-a", "-a[0]", "-f(1)", "a - -b", "a == = 1", "a < = 2", "a + = b = 1", "a += b = 1", "a += b += 1", "a = b = 1", "a ; (b)", "a (b)", "a\n(b)", "[a, [b]]", "[a [b]]", "[1 -2]", "[1, -2]",
              "stel f = functie(x) { x } (1)", "functie(x) { x }(1)(2)", "a[0][1]", "f(1)(2)", "f(1)[0]", "\"s\"[0]", "[1][0]", "(a)(1)", "([1])[0]", "a.b", "1 . 2", "zolang a { } + 1", "{ 1 } + 2", "{ 1 } - 2", "{ } [1]", "antwoord 1 + 2", "stel a = 1 stel b = 2", "stop volgende", "als a {1} anders {2} anders {3}"]
     front.front_corr(ctx, quirk, ("parse",), log, label="quirk-texts")
+    pairs = [("als a {1} anders als b {2} anders {3} + 10", "als a {1} anders { als b {2} anders {3} + 10 }"), ("als a {1} anders als b {2} + 3", "als a {1} anders { als b {2} + 3 }"),
+             ("x = als a {1} anders als b {2} anders {3} * 2", "x = als a {1} anders { als b {2} anders {3} * 2 }"), ("als a {1} anders als b {2}; 3", "als a {1} anders { als b {2} } 3"),
+             ("[als a {1} anders als b {2} anders {3} - 1, 4]", "[als a {1} anders { als b {2} anders {3} - 1 }, 4]"), ("als a {1} anders als b {2} anders als c {3} == 4", "als a {1} anders { als b {2} anders { als c {3} == 4 } }"),
+             ("f(als a {1} anders als b {2} anders {3} [0])", "f(als a {1} anders { als b {2} anders {3} [0] })"), ("als a {1} anders als b {2} anders {3}", "als a {1} anders { als b {2} anders {3} }")]
+    po = vlib.nlh("parse", [vlib.hexs(x) for pr in pairs for x in pr], tag="c07q")
+    for k, (chain, braces) in enumerate(pairs):
+        ctx.seen(chain)
+        if po[2 * k] != po[2 * k + 1]:
+            ctx.violate("an `anders als` chain and the same chain written with braces denote different trees", source=chain, observed=po[2 * k][:300], expected=po[2 * k + 1][:300])
     # (2) model correspondence on a sample
     idx = list(range(len(texts)))
     rng.shuffle(idx)
